@@ -59,6 +59,27 @@ def gen_tape(rng):
     return files, pre, blocks, pad
 
 
+def gen_big_tape(rng, total):
+    """real blocks far beyond the 21504 bytes of a blank MO5 tape: many files of full blocks; one block straddles offset 21504"""
+    files, blocks = [], []
+    size = 0
+    k = 0
+    while size < total:
+        name, ext = "BIG%04d" % k, rng.choice(["BIN", "DAT", "BAS"])
+        content = b""
+        blocks.append((rng.choice([3, 16]), 0, (name + " " * 8)[:8].encode() + ext.encode() + bytes([2, 0, 0]), b""))
+        for _ in range(rng.choice([1, 4, 12])):
+            p = T.content_for(rng, rng.choice([254, 254, 100, 1]))
+            content += p
+            blocks.append((rng.choice([3, 16]), 1, p, gen_gap(rng) if rng.random() < 0.2 else b""))
+            size += 20 + len(p)
+        blocks.append((16, 0xFF, b"", b""))
+        files.append((name, ext, 2, 0, content))
+        size += 60
+        k += 1
+    return files, b"", blocks, 0
+
+
 def one_case(ctx, res, stream, files, pre, blocks, pad):
     st = res.stream(stream)
     raw = T.py_render(pre, blocks)
@@ -77,14 +98,29 @@ def one_case(ctx, res, stream, files, pre, blocks, pad):
     with open(ap, "wb") as f:
         f.write(tape)
     outs = {}
+    snaps = {}
+    names0 = [f"{n.strip()}.{e.strip()}" for n, e, _, _, _ in files]
     for key, argv in (("t", ["-t"]), ("tv", ["-t", "-v"]), ("x", ["-x"]), ("xv", ["-x", "-v"])):
         if key.startswith("x"):
             for fn in list(os.listdir(d)):
                 if fn != "third.k7":
                     os.remove(os.path.join(d, fn))
+            if key == "xv":
+                # earlier results at the destination: longer, shorter, of the very length of the member, and empty: all replaced
+                for k, ((n, e, _, _, c), nm) in enumerate(zip(files, names0)):
+                    if "/" in nm or "\0" in nm or nm in (".", ".."):
+                        continue
+                    old = [c + b"tail of an older, longer file" * 3, c[: len(c) // 2], bytes(255 - b for b in c), b""][(k + len(tape)) % 4]
+                    try:
+                        with open(os.path.join(d, nm), "wb") as f:
+                            f.write(old)
+                    except OSError:
+                        pass
         outs[key] = T.tar(argv + ["third.k7"], cwd=d)
-    snap = T.snapshot(d)
-    snap.pop("third.k7")
+        if key.startswith("x"):
+            snaps[key] = T.snapshot(d)
+            snaps[key].pop("third.k7")
+    snap = snaps["xv"]
     ans = drv([f"tape.list q {tape.hex()}", f"tape.list v {tape.hex()}", f"tape.extract q {cps('third.k7')} ~ {tape.hex()}",
                f"tape.extract v {cps('third.k7')} ~ {tape.hex()}", f"tape.blocks {tape.hex()}"])
     for key, a in zip(("t", "tv", "x", "xv"), ans):
@@ -95,8 +131,8 @@ def one_case(ctx, res, stream, files, pre, blocks, pad):
         st.compared += 1
         if outs[key] != (mo["status"], mo["out"]):
             res.disagree(stream, dict(case, action=key), {"status": mo["status"], "out": mo["out"]}, {"status": outs[key][0], "out": outs[key][1]})
-        if key == "xv" and dict(mo["writes"]) != snap:
-            res.disagree(stream, dict(case, action="extract files"), sorted(dict(mo["writes"])), sorted(snap))
+        if key in ("x", "xv") and dict(mo["writes"]) != snaps[key]:
+            res.disagree(stream, dict(case, action="extract files " + key), sorted(dict(mo["writes"])), sorted(snaps[key]))
     want_blocks = ";".join(hx(bytes([t, (len(p) + 2) % 256]) + p + bytes([(256 - sum(p) % 256) % 256])) for _, t, p, _ in blocks)
     if ans[4] != want_blocks:
         res.disagree(stream, dict(case, action="blocks"), "model reader did not recover the written blocks", "blocks")
@@ -109,8 +145,11 @@ def one_case(ctx, res, stream, files, pre, blocks, pad):
     want_files = {}
     for (n, e, _, _, c), nm in zip(files, names):
         want_files[nm] = c
-    if snap != want_files:
-        res.violate(stream, "extract does not recover the files' bytes", case, {"got": sorted(snap), "want": sorted(want_files)}, {"clause": "bytes"})
+    for key in ("x", "xv"):
+        if snaps[key] != want_files:
+            res.violate(stream, "extract does not recover the files' bytes" + (" (over earlier results at the destination)" if key == "xv" else ""), case,
+                        {"got": sorted(snaps[key]), "want": sorted(want_files), "run": key}, {"clause": "bytes"})
+            break
     if outs["t"][1] != outs["x"][1] or outs["tv"][1] != outs["xv"][1]:
         res.violate(stream, "list and extract report differently", case, {"list": outs["tv"][1], "extract": outs["xv"][1]}, {"clause": "agree"})
     # verbose facts
@@ -145,6 +184,10 @@ def run(ctx, res):
         one_case(ctx, res, "random", files, pre, blocks, pad)
         if i == 1:
             res.sample({"files": [(n, e, k, m, len(c)) for n, e, k, m, c in files], "pad": pad})
+    # tapes longer than a blank MO5 tape ("any total length"): 30 KB to 100 KB of real blocks
+    for total in ([23000, 40000, 100000] if not ctx.thorough else [21600, 23000, 30000, 40000, 66000, 100000, 150000]):
+        files, pre, blocks, pad = gen_big_tape(rng, total)
+        one_case(ctx, res, "longer_than_a_blank_tape", files, pre, blocks, pad)
     if ctx.thorough:
         st = res.stream("lead_x_gap_x_len_grid", exhaustive=True)
         for lead in range(3, 65):
